@@ -29,7 +29,7 @@ ASSUMPTIONS = [
 ]
 
 SHAPES = ("never_connected", "connect_in_flight", "retry_wait", "connected_idle", "mid_packet", "in_callback", "during_send", "after_fault",
-          "reset_and_send")
+          "reset_and_send", "write_fault")
 # shapes only used by the close-before-timer pass (a client-internal timer is pending: back-off, busy-gateway pause, connect retry)
 TIMER_SHAPES = ("retry_wait", "after_fault", "busy_backoff", "connect_in_flight", "connected_idle", "reset_and_send")
 CLIENT_TASKS = ("connect", "_receive_loop", "_process_queue", "send", "_seed_network_map", "close", "_receive_impl")
@@ -56,7 +56,7 @@ def run_case(kind, shape, k, mode, post=("connect", "send", "data", "eof"), duri
         conn = None
         if shape != "never_connected":
             conn = asyncio.ensure_future(c.connect())
-        if shape in ("connected_idle", "mid_packet", "in_callback", "during_send", "after_fault", "reset_and_send", "busy_backoff"):
+        if shape in ("connected_idle", "mid_packet", "in_callback", "during_send", "after_fault", "reset_and_send", "busy_backoff", "write_fault"):
             while not s.gw.links:
                 await asyncio.sleep(0.01)
             await conn                      # connect() has returned: status callback done, receive loop started
@@ -71,6 +71,10 @@ def run_case(kind, shape, k, mode, post=("connect", "send", "data", "eof"), duri
             asyncio.ensure_future(c.send(iso_request()))
         elif shape == "after_fault":
             link.eof()
+        elif shape == "write_fault" and kind != "actisense":
+            # a fault only the write side notices: send() starts the reconnection while the reader still waits on the old link
+            s.gw.write_actions[s.gw.total_writes + 1] = ("fail",)
+            asyncio.ensure_future(c.send(iso_request()))
         elif shape == "busy_backoff":
             # the gateway is out of connections: EByte gateways answer with this banner (other clients see 13 bytes of noise)
             link.feed(b"Sorry,Limited")
